@@ -217,8 +217,10 @@ def mm_stage(prop, tier, name, configs, workers=12):
     res["samples"].append({"extracted_protocol": {"IncProgs": sorted(incs), "DecProgs": sorted(decs),
                                                   "UniqProgs": {k: sorted(v) for k, v in uniqs.items()}}})
     for (cname, ops, nt, maxops, maxinit, handoff) in configs:
+        # (a protocol with many more steps per call than the crate's can make the model explode: the quick tier gives up
+        # after 20 minutes -- exit 2, not a verdict -- instead of filling the disk)
         out, st = run_tlc(wd, "MC_ArcMM.tla", mm_cfg(ops, nt, maxops, maxinit, handoff), cname, workers=workers,
-                          timeout=5400, java_opts=["-Xmx12g"])
+                          timeout=1200 if tier == "quick" else 5400, java_opts=["-Xmx12g"])
         res["states"] += st["distinct"]
         res["transitions"] += st["generated"]
         res["evaluations"] += 1
